@@ -1,10 +1,30 @@
 import EdsModel
 import EdsSpec.C15
+import EdsProofs.SelectNodes
+import EdsProofs.ReconcileEds
 /-
   C15 — Canary nodes are valid, distinct, stable and as many as requested.
+
+  All statements are about one successful call
+      selectNodes t c base cur pods nodes = .ok (res, short)
+  (`cur` = `status.canary.nodes` before, `res` = after, `short` = "fewer than requested": the
+  reconcile reports an error), and about the caller `updateInstance` / `edsMain`.
+
+  Notation used in the comments: `listed` = the nodes passing the canary node selector
+  (`Sel.listed c nodes`), `kept` = the previously selected names surviving the first loop
+  (`Sel.kept t c pods nodes cur`).
+
+  Known and accepted (finding F6a): a previously selected name that is *not* the name of a listed
+  node is never re-examined and stays; `Spec.C15.allValid` is therefore false in general
+  (`C15_allValid_counterexample`), and `C15_all_valid_if_listed` proves the complement.
 -/
 namespace Eds
-open Spec.C15
+open Spec.C15 Sel
+
+variable {t : Template} {c : Canary} {base : Int} {cur : List String} {pods : List Pod}
+  {nodes : List Node} {res : List String} {short : Bool}
+
+/-! ### 5. the request -/
 
 /-- **Percent.** The requested number of canary nodes is the percentage of the targeted nodes,
 rounded up (shared arithmetic with C03). -/
@@ -13,5 +33,630 @@ theorem C15_percent (v targeted : Int) :
                 autoPause := none, autoFail := none, noRestartsDuration := none, validationMode := "" } targeted
       = some ((v * targeted + 99) / 100) := by
   simp [requested, resolveIntOrPercent, ceilDiv100]
+
+/-- `ceilDiv100 a` is `⌈a / 100⌉`: the least integer `q` with `a ≤ 100 q`. -/
+theorem C15_ceilDiv100_is_ceiling (a : Int) :
+    a ≤ 100 * ceilDiv100 a ∧ 100 * (ceilDiv100 a - 1) < a := by
+  unfold ceilDiv100
+  omega
+
+/-- what the request resolves to: an integer is taken as it is, a percentage is resolved against
+`targeted` and rounded up, anything else is an error. -/
+theorem C15_requested_iff (c : Canary) (targeted k : Int) :
+    requested c targeted = some k ↔
+      ∃ x, c.replicas = some x ∧
+        ((x.kind = "int" ∧ k = x.val) ∨ (x.kind = "pct" ∧ k = ceilDiv100 (x.val * targeted))) := by
+  unfold requested resolveIntOrPercent
+  cases c.replicas with
+  | none => simp
+  | some x =>
+    simp only [Option.some.injEq, exists_eq_left', beq_iff_eq]
+    by_cases h1 : x.kind = "int"
+    · have h2 : x.kind ≠ "pct" := by rw [h1]; decide
+      simp [h1, eq_comm]
+    · by_cases h2 : x.kind = "pct"
+      · have h1' : ¬ ("pct" = "int") := by decide
+        simp [h2, h1', eq_comm]
+      · simp [h1, h2]
+
+/-- **The request is resolved against the number of nodes the ExtendedDaemonSet targets**: a
+successful `selectNodes` resolved `spec.strategy.canary.replicas` against its argument `base`
+(`Spec.C15.requested c base`; `updateInstance` passes the ExtendedDaemonSet's `status.desired`, see
+`C15_update_uses_select`), with the rounding up of `ceilDiv100`, and the error flag compares the result
+with that number. -/
+theorem C15_request_resolved_against_targeted
+    (h : selectNodes t c base cur pods nodes = .ok (res, short)) :
+    ∃ k, requested c base = some k ∧ short = decide ((res.length : Int) < k) ∧
+      ∃ x, c.replicas = some x ∧
+        ((x.kind = "int" ∧ k = x.val) ∨
+         (x.kind = "pct" ∧ k = ceilDiv100 (x.val * base) ∧
+            x.val * base ≤ 100 * k ∧ 100 * (k - 1) < x.val * base)) := by
+  obtain ⟨nb, add, hr, hshort, -⟩ := selectNodes_shape h
+  refine ⟨nb, hr, hshort, ?_⟩
+  obtain ⟨x, hx, h⟩ := (C15_requested_iff c base nb).mp hr
+  refine ⟨x, hx, ?_⟩
+  rcases h with h | ⟨h1, h2⟩
+  · exact Or.inl h
+  · have := C15_ceilDiv100_is_ceiling (x.val * base)
+    rw [← h2] at this
+    exact Or.inr ⟨h1, h2, this.1, this.2⟩
+
+/-- without a resolvable request there is no selection at all: the call is an error. -/
+theorem C15_unresolvable_request_is_error (t : Template) (c : Canary) (base : Int) (cur : List String)
+    (pods : List Pod) (nodes : List Node) (h : requested c base = none) :
+    selectNodes t c base cur pods nodes = .err "replicas" :=
+  selectNodes_err_iff t c base cur pods nodes h
+
+/-! ### 1. distinct -/
+
+/-- **Distinct.** The first loop only erases and the second only appends names that are not in the
+list yet: a duplicate-free list stays duplicate-free.  (No hypothesis on the node names is needed.) -/
+theorem C15_distinct (h : selectNodes t c base cur pods nodes = .ok (res, short)) (hnd : cur.Nodup) :
+    res.Nodup := by
+  obtain ⟨nb, add, -, -, hres, haddnd, hnew, -⟩ := selectNodes_shape h
+  rw [hres, List.nodup_append]
+  refine ⟨filt_nodup hnd, haddnd, ?_⟩
+  intro a ha b hb hab
+  subst hab
+  exact hnew a hb ha
+
+theorem C15_distinct_spec (h : selectNodes t c base cur pods nodes = .ok (res, short)) :
+    distinct cur res = true := by
+  unfold distinct
+  by_cases hnd : cur.Nodup
+  · simp [C15_distinct h hnd]
+  · simp [hnd]
+
+/-! ### 2. what is added is valid -/
+
+/-- every name of the result is a previously selected one or the name of a listed node that is fit. -/
+theorem C15_mem_result (h : selectNodes t c base cur pods nodes = .ok (res, short)) {x : String}
+    (hx : x ∈ res) : (x ∈ cur ∧ x ∈ kept t c pods nodes cur) ∨ validNode t c nodes x = true := by
+  obtain ⟨nb, add, -, -, hres, -, -, hfrom, -⟩ := selectNodes_shape h
+  rw [hres] at hx
+  rcases List.mem_append.mp hx with hx | hx
+  · exact Or.inl ⟨filt_subset hx, hx⟩
+  · exact Or.inr (validNode_iff.mpr (hfrom x hx))
+
+/-- **New names are valid**: a name of the result that was not selected before is the name of an
+existing node that matches the canary node selector and is eligible for the pod. -/
+theorem C15_new_valid (h : selectNodes t c base cur pods nodes = .ok (res, short)) :
+    ∀ x ∈ res, x ∉ cur → validNode t c nodes x = true := by
+  intro x hx hnx
+  rcases C15_mem_result h hx with ⟨hc, -⟩ | hv
+  · exact absurd hc hnx
+  · exact hv
+
+theorem C15_new_valid_spec (h : selectNodes t c base cur pods nodes = .ok (res, short)) :
+    newValid t c nodes cur res = true := by
+  unfold newValid added
+  rw [List.all_eq_true]
+  intro x hx
+  rw [List.mem_filter] at hx
+  exact C15_new_valid h x hx.1 (by simpa using hx.2)
+
+/-! ### 3. what was selected before is kept -/
+
+/-- **Previously selected names are only removed when they are listed and unfit.** -/
+theorem C15_removed_only_unfit (h : selectNodes t c base cur pods nodes = .ok (res, short)) :
+    ∀ x ∈ cur, x ∉ res → ∃ n ∈ listed c nodes, n.name = x ∧ fit t n = false := by
+  intro x hx hnx
+  obtain ⟨nb, add, -, -, hres, -⟩ := selectNodes_shape h
+  have hnk : x ∉ kept t c pods nodes cur := fun hk => hnx (by rw [hres]; exact List.mem_append_left _ hk)
+  obtain ⟨n, hn, h⟩ := filt_removed hx hnk
+  exact ⟨n, mem_sortByRestarts.mp hn, h⟩
+
+/-- a previously selected name that no listed node of that name makes unfit is kept
+(in particular every name that is *not listed* — finding F6a — and, with distinct node names,
+every name that is still valid). -/
+theorem C15_kept_if_not_unfit (h : selectNodes t c base cur pods nodes = .ok (res, short)) {x : String}
+    (hx : x ∈ cur) (hok : ∀ n ∈ listed c nodes, n.name = x → fit t n = true) : x ∈ res := by
+  apply Decidable.byContradiction
+  intro hnx
+  obtain ⟨n, hn, hname, hfit⟩ := C15_removed_only_unfit h x hx hnx
+  rw [hok n hn hname] at hfit
+  cases hfit
+
+/-- **Order.** The result is the surviving previous names — a sublist of the previous list, so in
+their previous relative order — followed by the added names, which are new to that prefix and pairwise
+distinct. -/
+theorem C15_kept_prefix (h : selectNodes t c base cur pods nodes = .ok (res, short)) :
+    ∃ add, res = kept t c pods nodes cur ++ add ∧ (kept t c pods nodes cur).Sublist cur ∧
+      add.Nodup ∧ (∀ y ∈ add, y ∉ kept t c pods nodes cur) ∧
+      (∀ y ∈ add, validNode t c nodes y = true) := by
+  obtain ⟨nb, add, -, -, hres, hnd, hnew, hfrom, -⟩ := selectNodes_shape h
+  exact ⟨add, hres, filt_sublist _ _ _, hnd, hnew, fun y hy => validNode_iff.mpr (hfrom y hy)⟩
+
+/-- with distinct node names an added name was not selected before (it cannot have been dropped as
+unfit and then added as fit). -/
+theorem C15_added_not_previous (h : selectNodes t c base cur pods nodes = .ok (res, short))
+    (hnames : (nodes.map (·.name)).Nodup) :
+    ∃ add, res = kept t c pods nodes cur ++ add ∧ ∀ y ∈ add, y ∉ cur := by
+  obtain ⟨nb, add, -, -, hres, -, hnew, hfrom, -⟩ := selectNodes_shape h
+  refine ⟨add, hres, ?_⟩
+  intro y hy hyc
+  obtain ⟨n, hn, hname, hunfit⟩ := filt_removed hyc (hnew y hy)
+  obtain ⟨m, hm, hname', hfit⟩ := hfrom y hy
+  have := eq_of_name_eq (listed_names_nodup hnames) (mem_sortByRestarts.mp hn) hm (hname.trans hname'.symm)
+  subst this
+  rw [hfit] at hunfit
+  cases hunfit
+
+/-- **Relative order of the kept names**: with duplicate-free inputs, the previously selected names that
+are in the result appear there in their previous order, and before every added name:
+restricting the result to the old names gives the same list as restricting the old list to the result. -/
+theorem C15_keep_order (h : selectNodes t c base cur pods nodes = .ok (res, short))
+    (hnd : cur.Nodup) (hnames : (nodes.map (·.name)).Nodup) :
+    res.filter (fun x => cur.contains x) = cur.filter (fun x => res.contains x) ∧
+    (cur.filter (fun x => res.contains x)) <+: res := by
+  obtain ⟨add, hres, hadd⟩ := C15_added_not_previous h hnames
+  have hsub : (kept t c pods nodes cur).Sublist cur := filt_sublist _ _ _
+  have h1 : res.filter (fun x => cur.contains x) = kept t c pods nodes cur := by
+    rw [hres, List.filter_append]
+    have ha : add.filter (fun x => cur.contains x) = [] := by
+      rw [List.filter_eq_nil_iff]
+      intro y hy
+      simpa using hadd y hy
+    have hk : (kept t c pods nodes cur).filter (fun x => cur.contains x) = kept t c pods nodes cur := by
+      rw [List.filter_eq_self]
+      intro y hy
+      simpa using hsub.subset hy
+    rw [ha, hk, List.append_nil]
+  have h2 : cur.filter (fun x => res.contains x) = kept t c pods nodes cur := by
+    have h3 := filter_eq_of_sublist (fun x => res.contains x) hsub hnd (by
+      intro x hx hp
+      have hp' : x ∈ res := by simpa using hp
+      rw [hres] at hp'
+      rcases List.mem_append.mp hp' with hk | ha
+      · exact hk
+      · exact absurd hx (hadd x ha))
+    rw [← h3, List.filter_eq_self]
+    intro y hy
+    simp only [List.contains_eq_mem, decide_eq_true_eq]
+    rw [hres]
+    exact List.mem_append_left _ hy
+  rw [h1, h2]
+  exact ⟨rfl, by rw [hres]; exact List.prefix_append _ _⟩
+
+/-- **Nodes selected earlier that are still valid are kept, in order** (`Spec.C15.keep`), when the
+node names are distinct.
+
+The hypothesis is needed: with two listed nodes of the same name, one fit and one unfit, the name is
+"valid" for the specification but the first loop drops it (`C15_keep_counterexample`).  Node names
+are unique in a cluster, so the hypothesis holds for every list the API server returns. -/
+theorem C15_keep (h : selectNodes t c base cur pods nodes = .ok (res, short))
+    (hnames : (nodes.map (·.name)).Nodup) : keep t c nodes cur res = true := by
+  unfold keep
+  simp only []
+  by_cases hnd : cur.Nodup
+  case neg => simp [hnd]
+  case pos =>
+    simp only [Bool.or_eq_true, beq_iff_eq]
+    left
+    obtain ⟨add, hres, hadd⟩ := C15_added_not_previous h hnames
+    have hsub : (kept t c pods nodes cur).Sublist cur := filt_sublist _ _ _
+    -- every still-valid old name survives the first loop
+    have hkept : ∀ x ∈ cur, validNode t c nodes x = true → x ∈ kept t c pods nodes cur := by
+      intro x hx hv
+      obtain ⟨m, hm, hname, hfit⟩ := validNode_iff.mp hv
+      apply filt_kept hx
+      intro n hn hname'
+      have := eq_of_name_eq (listed_names_nodup hnames) (mem_sortByRestarts.mp hn) hm (hname'.trans hname.symm)
+      rw [this]; exact hfit
+    rw [hres, List.filter_append]
+    have ha : add.filter (fun x => (cur.filter (validNode t c nodes)).contains x) = [] := by
+      rw [List.filter_eq_nil_iff]
+      intro y hy
+      simp only [List.contains_eq_mem, List.mem_filter, decide_eq_true_eq, not_and]
+      intro hyc
+      exact absurd hyc (hadd y hy)
+    have hk : (kept t c pods nodes cur).filter (fun x => (cur.filter (validNode t c nodes)).contains x)
+        = (kept t c pods nodes cur).filter (validNode t c nodes) := by
+      apply List.filter_congr
+      intro x hx
+      have hxc : x ∈ cur := hsub.subset hx
+      cases hv : validNode t c nodes x <;> simp [hv, hxc]
+    rw [ha, hk, List.append_nil]
+    exact filter_eq_of_sublist _ hsub hnd hkept
+
+/-! ### 4. / 6. the count, and the error -/
+
+/-- **Error iff short.** -/
+theorem C15_short_iff (h : selectNodes t c base cur pods nodes = .ok (res, short)) {k : Int}
+    (hk : requested c base = some k) : short = decide ((res.length : Int) < k) := by
+  obtain ⟨nb, add, hr, hshort, -⟩ := selectNodes_shape h
+  have : nb = k := by
+    have := hr.symm.trans hk
+    exact Option.some.inj this
+  rw [← this]; exact hshort
+
+/-- **Error if fewer valid nodes exist than requested.** -/
+theorem C15_error_if_short (h : selectNodes t c base cur pods nodes = .ok (res, short)) {k : Int}
+    (hk : requested c base = some k) : short = true → (res.length : Int) < k := by
+  intro hs
+  rw [C15_short_iff h hk] at hs
+  simpa using hs
+
+/-- on success (no error) with a list that had to grow, the count is exactly the request. -/
+theorem C15_reaches_request (h : selectNodes t c base cur pods nodes = .ok (res, short)) {k : Int}
+    (hk : requested c base = some k) (hlt : ((kept t c pods nodes cur).length : Int) < k)
+    (hs : short = false) : (res.length : Int) = k := by
+  obtain ⟨nb, add, hr, hshort, -, -, -, -, -, hle⟩ := selectNodes_shape h
+  have : nb = k := Option.some.inj (hr.symm.trans hk)
+  subst this
+  have := hle hlt
+  rw [hs] at hshort
+  have hge : ¬ (res.length : Int) < nb := by simpa using hshort.symm
+  omega
+
+/-- **Never beyond the request through the controller's own choice**: names are added only while the
+survivors of the previous selection are fewer than the request, and then only up to the request;
+otherwise the result is the (possibly longer) surviving previous selection. -/
+theorem C15_never_exceeds (h : selectNodes t c base cur pods nodes = .ok (res, short)) {k : Int}
+    (hk : requested c base = some k) :
+    (((kept t c pods nodes cur).length : Int) < k → (res.length : Int) ≤ k) ∧
+    (¬ ((kept t c pods nodes cur).length : Int) < k → res = kept t c pods nodes cur) ∧
+    (res.length : Int) ≤ max k cur.length := by
+  obtain ⟨nb, add, hr, -, hres, -, -, -, hne, hle⟩ := selectNodes_shape h
+  have : nb = k := Option.some.inj (hr.symm.trans hk)
+  subst this
+  have hkl : (kept t c pods nodes cur).length ≤ cur.length := filt_length_le _ _ _
+  have hres' : ¬ ((kept t c pods nodes cur).length : Int) < nb → res = kept t c pods nodes cur := by
+    intro hnlt
+    have : add = [] := by
+      apply Decidable.byContradiction
+      intro hadd
+      exact hnlt (hne hadd)
+    rw [hres, this, List.append_nil]
+  refine ⟨hle, hres', ?_⟩
+  by_cases hlt : ((kept t c pods nodes cur).length : Int) < nb
+  · have := hle hlt
+    omega
+  · rw [hres' hlt]
+    omega
+
+/-- **Count** (`Spec.C15.count`). -/
+theorem C15_count (h : selectNodes t c base cur pods nodes = .ok (res, short)) :
+    count c base cur res short = true := by
+  obtain ⟨nb, add, hr, -⟩ := selectNodes_shape h
+  have hk : requested c base = some nb := hr
+  unfold count
+  rw [hk]
+  simp only [Bool.and_eq_true, beq_iff_eq, decide_eq_true_eq]
+  exact ⟨C15_short_iff h hk, (C15_never_exceeds h hk).2.2⟩
+
+/-! ### 6. the caller reports the error -/
+
+/-- **`updateInstance` runs the selection on the status' node list and takes over its verdict**: with an
+active canary whose request resolves (against the ExtendedDaemonSet's `status.desired`: the trigger) to a
+number different from the length of the current list, `selectErr` is the `short` flag of `selectNodes`
+— run with the request resolved against the nodes the ExtendedDaemonSet targets (`targetedCount`, F14
+repair) — and the node list of the new status is its result. -/
+theorem C15_update_uses_select (d : EDS) (current u : ERS) (cu rdy avail : Int) (now : Time)
+    (pods : List Pod) (nodes : List Node) (c : Canary) (nb : Int) (sel : List String) (short : Bool)
+    (hc : d.strategy.canary = some c)
+    (hact : isCanaryActive (some c) current.name u.name (isCanaryFailed (some u)) = true)
+    (hr : requested c d.status.desired = some nb)
+    (hne : nb ≠ ((match (managedStatus d current u cu rdy avail now).canary with
+                  | some cs => cs.nodes | none => [] : List String).length : Int))
+    (hsel : selectNodes u.template c (targetedCount u.template nodes)
+        (match (managedStatus d current u cu rdy avail now).canary with
+         | some cs => cs.nodes | none => []) pods nodes = .ok (sel, short)) :
+    (updateInstance d current u cu rdy avail now pods nodes).selectErr = short ∧
+    (updateInstance d current u cu rdy avail now pods nodes).status.canary =
+      (managedStatus d current u cu rdy avail now).canary.map (fun cs => { cs with nodes := sel }) := by
+  unfold requested at hr
+  unfold managedStatus at hne hsel ⊢
+  unfold updateInstance
+  simp only [hc, hact, hr, baseStatus] at hne hsel ⊢
+  generalize manageStatus _ _ _ _ _ _ _ = st at hne hsel ⊢
+  cases hcan : st.canary with
+  | none =>
+    simp only [hcan] at hne hsel ⊢
+    rw [if_pos trivial, if_pos (by simpa using hne), hsel]
+    exact ⟨rfl, rfl⟩
+  | some cs =>
+    simp only [hcan] at hne hsel ⊢
+    rw [if_pos trivial, if_pos (by simpa using hne), hsel]
+    exact ⟨rfl, rfl⟩
+
+/-- **`selectErr` with a resolvable request means the selection ran and came short**: the only other
+source of `selectErr` is a request that does not resolve (`selectNodes` itself never fails once the
+request resolves). -/
+theorem C15_selectErr_only_if_short (d : EDS) (current u : ERS) (cu rdy avail : Int) (now : Time)
+    (pods : List Pod) (nodes : List Node) (c : Canary) (nb nb' : Int)
+    (hc : d.strategy.canary = some c) (hr : requested c d.status.desired = some nb)
+    (hr' : requested c (targetedCount u.template nodes) = some nb')
+    (h : (updateInstance d current u cu rdy avail now pods nodes).selectErr = true) :
+    ∃ sel, selectNodes u.template c (targetedCount u.template nodes)
+        (match (managedStatus d current u cu rdy avail now).canary with
+         | some cs => cs.nodes | none => []) pods nodes = .ok (sel, true) ∧ (sel.length : Int) < nb' := by
+  unfold requested at hr hr'
+  unfold managedStatus
+  unfold updateInstance at h
+  simp only [hc, hr, baseStatus] at h ⊢
+  generalize manageStatus _ _ _ _ _ _ _ = st at h ⊢
+  cases hcan : st.canary <;>
+  · simp only [hcan] at h ⊢
+    split at h
+    · split at h
+      · rw [selectNodes_eq _ _ _ _ _ _ hr'] at h ⊢
+        simp only [] at h
+        exact ⟨_, by rw [h], by simpa using h⟩
+      · cases h
+    · cases h
+
+/-- **The reconcile reports the error instead of silently running a smaller canary**: when the
+selection came short (`selectErr`), `edsMain` returns an error and writes no status — in particular not
+the shorter node list. -/
+theorem C15_reconcile_error (d : EDS) (list : List ERS) (u : ERS) (pods : List Pod) (nodes : List Node)
+    (now : Time)
+    (h : (edsUpd d list (currentOf d list u now).1 u pods nodes now).selectErr = true) :
+    (edsMain d list u pods nodes now).err = true ∧
+    (edsMain d list u pods nodes now).statusUpdate = none ∧
+    (edsMain d list u pods nodes now).specUpdate = none := by
+  refine ⟨by rw [edsMain_err_iff]; exact h, ?_, ?_⟩
+  · unfold edsMain
+    unfold edsUpd at h
+    simp only []
+    generalize updateInstance _ _ _ _ _ _ _ _ _ = upd at h ⊢
+    simp [h]
+  · unfold edsMain
+    unfold edsUpd at h
+    simp only []
+    generalize updateInstance _ _ _ _ _ _ _ _ _ = upd at h ⊢
+    simp [h]
+
+/-! ### 7. validity of the whole list when nothing stale is in it -/
+
+/-- **All names valid when every previous name is listed** (the complement of finding F6a): if the
+previous list is duplicate-free and every previous name is the name of a node passing the canary node
+selector (node names need not even be distinct), then every name of the result is the name of an existing node
+that matches the selector and is eligible for the pod.
+
+`cur.Nodup` is needed because the first loop erases one occurrence per listed unfit node
+(`C15_all_valid_needs_nodup`); it is the invariant `C15_distinct` maintains from the empty list. -/
+theorem C15_all_valid_if_listed (h : selectNodes t c base cur pods nodes = .ok (res, short))
+    (hnd : cur.Nodup) (hlisted : ∀ x ∈ cur, ∃ n ∈ listed c nodes, n.name = x) :
+    allValid t c nodes res = true := by
+  unfold allValid
+  rw [List.all_eq_true]
+  intro x hx
+  rcases C15_mem_result h hx with ⟨hxc, hxk⟩ | hv
+  · obtain ⟨n, hn, hname⟩ := hlisted x hxc
+    cases hfit : fit t n with
+    | true => exact validNode_iff.mpr ⟨n, hn, hname, hfit⟩
+    | false =>
+      have : n.name ∉ kept t c pods nodes cur := filt_unfit_gone hnd (mem_sortByRestarts.mpr hn) hfit
+      rw [hname] at this
+      exact absurd hxk this
+  · exact hv
+
+/-! ### 8. preference for the nodes whose pods restarted least -/
+
+/-- **Least restarts first** (no anti-affinity keys): a node that is added has at most the restart count
+of any listed, fit node that is left out of the result. -/
+theorem C15_least_restarts (h : selectNodes t c base cur pods nodes = .ok (res, short))
+    (hkeys : c.antiAffinityKeys = []) :
+    ∀ y ∈ res, y ∉ cur → ∀ z ∈ listed c nodes, fit t z = true → z.name ∉ res →
+      nodeRestarts pods y ≤ nodeRestarts pods z.name := by
+  intro y hy hyc z hz hzfit hzout
+  cases hr : resolveIntOrPercent c.replicas base with
+  | none => rw [selectNodes_err_iff t c base cur pods nodes hr] at h; cases h
+  | some nb =>
+    rw [selectNodes_eq t c base cur pods nodes hr] at h
+    simp only [Outcome.ok.injEq, Prod.mk.injEq] at h
+    obtain ⟨hres, -⟩ := h
+    rw [hkeys] at hres
+    split at hres
+    · rw [← hres] at hy hzout
+      exact selFold_least_restarts t nb pods _ _ (sortByRestarts_sorted pods _) y hy
+        (fun hk => hyc (filt_subset hk)) z (mem_sortByRestarts.mpr hz) hzfit hzout
+    · rw [← hres] at hy
+      exact absurd (filt_subset hy) hyc
+
+/-- **An error only when the valid nodes are exhausted** (no anti-affinity keys): if the selection comes
+short, every listed fit node is in the result — the controller does not report an error while a valid
+node is still free.  (With anti-affinity keys this fails, `C15_short_despite_valid_with_keys`.) -/
+theorem C15_short_only_if_exhausted (h : selectNodes t c base cur pods nodes = .ok (res, short))
+    (hkeys : c.antiAffinityKeys = []) (hs : short = true) :
+    ∀ z ∈ listed c nodes, fit t z = true → z.name ∈ res := by
+  intro z hz hzfit
+  cases hr : resolveIntOrPercent c.replicas base with
+  | none => rw [selectNodes_err_iff t c base cur pods nodes hr] at h; cases h
+  | some nb =>
+    rw [selectNodes_eq t c base cur pods nodes hr] at h
+    simp only [Outcome.ok.injEq, Prod.mk.injEq] at h
+    obtain ⟨hres, hshort⟩ := h
+    rw [hs, hkeys] at hshort
+    rw [hkeys] at hres
+    have hlen : (res.length : Int) < nb := by rw [← hres]; simpa using hshort
+    split at hres
+    · rw [← hres] at hlen ⊢
+      apply selFold_complete t nb _ _ _ z (mem_sortByRestarts.mpr hz) hzfit
+      cases hd : (selFold t [] nb (sortByRestarts pods (listed c nodes))
+          { current := filt t (sortByRestarts pods (listed c nodes)) cur,
+            counts := counts0 [] (sortByRestarts pods (listed c nodes))
+              (filt t (sortByRestarts pods (listed c nodes)) cur) }).done with
+      | false => rfl
+      | true =>
+        have := selFold_doneInv (t := t) (keys := []) (nb := nb) (sortByRestarts pods (listed c nodes))
+          (s := { current := filt t (sortByRestarts pods (listed c nodes)) cur,
+                  counts := counts0 [] (sortByRestarts pods (listed c nodes))
+                    (filt t (sortByRestarts pods (listed c nodes)) cur) })
+          (fun hd0 => by cases hd0) hd
+        omega
+    · rename_i hge
+      rw [← hres] at hlen
+      exact absurd hlen hge
+
+/-! ### 9. spreading over the values of `nodeAntiAffinityKeys` -/
+
+/-- the cap of the spreading, `Int.tdiv (k + m - 1) m`, is `⌈k / m⌉` for a non-negative request `k`
+and `m ≥ 1` classes. -/
+theorem C15_spread_cap_is_ceiling (k m : Int) (hk : 0 ≤ k) (hm : 0 < m) :
+    k ≤ m * Int.tdiv (k + m - 1) m ∧ m * (Int.tdiv (k + m - 1) m - 1) < k := by
+  rw [Int.tdiv_eq_ediv_of_nonneg (by omega)]
+  have h1 := Int.mul_ediv_add_emod (k + m - 1) m
+  have h2 := Int.emod_nonneg (k + m - 1) (Int.ne_of_gt hm)
+  have h3 := Int.emod_lt_of_pos (k + m - 1) hm
+  rw [Int.mul_sub, Int.mul_one]
+  omega
+
+/-- **Spread.** With anti-affinity keys, let `classes` be the distinct values
+`antiAffinityValue keys n` of the listed nodes (the theorem exhibits a duplicate-free enumeration).  The
+result is the kept names followed by the names of a sublist `addN` of the sorted listed nodes, all fit,
+and for every value `v` the number of listed nodes of class `v` that were already selected plus the number
+of added nodes of class `v` is at most `⌈k / #classes⌉` (`Int.tdiv (k + #classes - 1) #classes`) — unless
+the already selected ones exceed that on their own, in which case none is added to that class. -/
+theorem C15_spread (h : selectNodes t c base cur pods nodes = .ok (res, short))
+    (hkeys : c.antiAffinityKeys ≠ []) {k : Int} (hk : requested c base = some k) :
+    ∃ (classes : List String) (addN : List Node),
+      classes.Nodup ∧
+      (∀ v, v ∈ classes ↔ ∃ n ∈ listed c nodes, antiAffinityValue c.antiAffinityKeys n = v) ∧
+      addN.Sublist (sortByRestarts pods (listed c nodes)) ∧ (∀ n ∈ addN, fit t n = true) ∧
+      res = kept t c pods nodes cur ++ addN.map (·.name) ∧
+      ∀ v,
+        (((sortByRestarts pods (listed c nodes)).filter (fun n =>
+            antiAffinityValue c.antiAffinityKeys n == v && (kept t c pods nodes cur).contains n.name)).length : Int)
+          + ((addN.filter (fun n => antiAffinityValue c.antiAffinityKeys n == v)).length : Int)
+        ≤ max (((sortByRestarts pods (listed c nodes)).filter (fun n =>
+            antiAffinityValue c.antiAffinityKeys n == v && (kept t c pods nodes cur).contains n.name)).length : Int)
+            (Int.tdiv (k + (classes.length : Int) - 1) (classes.length : Int)) := by
+  have hke : c.antiAffinityKeys.isEmpty = false := by
+    cases hkk : c.antiAffinityKeys with
+    | nil => exact absurd hkk hkeys
+    | cons a l => rfl
+  unfold requested at hk
+  rw [selectNodes_eq t c base cur pods nodes hk] at h
+  simp only [Outcome.ok.injEq, Prod.mk.injEq] at h
+  obtain ⟨hres, -⟩ := h
+  obtain ⟨hc1, hc2, hc3⟩ := c0Fold_spec c.antiAffinityKeys (kept t c pods nodes cur)
+    (sortByRestarts pods (listed c nodes)) []
+  rw [← counts0_eq _ _ _ hke] at hc1 hc2 hc3
+  refine ⟨(counts0 c.antiAffinityKeys (sortByRestarts pods (listed c nodes)) (kept t c pods nodes cur)).map (·.1),
+    ?_⟩
+  have hclasses : ∀ v, v ∈ (counts0 c.antiAffinityKeys (sortByRestarts pods (listed c nodes))
+      (kept t c pods nodes cur)).map (·.1) ↔ ∃ n ∈ listed c nodes, antiAffinityValue c.antiAffinityKeys n = v := by
+    intro v
+    rw [hc1 v]
+    constructor
+    · rintro (h | ⟨n, hn, h⟩)
+      · simp at h
+      · exact ⟨n, mem_sortByRestarts.mp hn, h⟩
+    · rintro ⟨n, hn, h⟩
+      exact Or.inr ⟨n, mem_sortByRestarts.mpr hn, h⟩
+  split at hres
+  · obtain ⟨addN, hsub, hcur, hfit, -, hv⟩ := selFold_spread t c.antiAffinityKeys k hke
+      (sortByRestarts pods (listed c nodes))
+      { current := kept t c pods nodes cur,
+        counts := counts0 c.antiAffinityKeys (sortByRestarts pods (listed c nodes)) (kept t c pods nodes cur) }
+      (fun n hn => (hc1 _).mpr (Or.inr ⟨n, hn, rfl⟩))
+    refine ⟨addN, hc2 (by simp), hclasses, hsub, hfit, by rw [← hres]; exact hcur, ?_⟩
+    intro v
+    obtain ⟨h1, h2⟩ := hv v
+    simp only [] at h1 h2
+    rw [hc3 v] at h1 h2
+    simp only [List.length_map]
+    simp only [lookupCount, List.find?_nil] at h1 h2
+    omega
+  · refine ⟨[], hc2 (by simp), hclasses, List.nil_sublist _, by simp, by rw [← hres]; simp [kept], ?_⟩
+    intro v
+    simp only [List.filter_nil, List.length_nil]
+    omega
+
+/-! ### examples and counterexamples -/
+
+def exT15 : Template :=
+  { labels := [], annotations := [], nodeSelector := [], affOther := "", affRequired := none,
+    tolerations := [], containers := [] }
+
+def exNode15 (n : String) (labels : SMap := []) (taints : List Taint := []) : Node :=
+  { name := n, labels := labels, annotations := [], taints := taints }
+
+/-- a pod on node `n` whose one regular container restarted `restarts` times. -/
+def exPod15 (name n : String) (restarts : Int) : Pod :=
+  { name := name, ns := "d", labels := [], annotations := [], owners := [],
+    creation := 0, deletion := none, gracePeriod := none, nodeName := n, affOther := "",
+    affRequired := none, tolerations := [], containers := [], phase := "Running", startTime := none,
+    conds := [], cstats := [{ name := "c", restarts := restarts, waiting := none, lastTerm := none }],
+    mainCstats := 1 }
+
+def exCanary15 (replicas : IntOrStr) (sel : Option LabelSelector := none) (keys : List String := []) : Canary :=
+  { replicas := some replicas, duration := none, nodeSelector := sel, antiAffinityKeys := keys,
+    autoPause := none, autoFail := none, noRestartsDuration := none, validationMode := "" }
+
+def exTaint15 : Taint := ⟨"dedicated", "db", "NoSchedule"⟩
+
+/-- four nodes: `n3` is tainted (unfit); restarts: `n1` ↦ 5, `n2` ↦ 0, `n4` ↦ 2. -/
+def exNodes15 : List Node :=
+  [exNode15 "n1", exNode15 "n2", exNode15 "n3" [] [exTaint15], exNode15 "n4"]
+
+def exPods15 : List Pod := [exPod15 "p1" "n1" 5, exPod15 "p2" "n2" 0, exPod15 "p4" "n4" 2]
+
+/-- replicas 2, previous selection `n3` (now unfit) and `n1`: `n3` is dropped, `n1` is kept (although it
+restarted most), the least restarted free node `n2` is added. -/
+example : selectNodes exT15 (exCanary15 ⟨"int", 2⟩) 4 ["n3", "n1"] exPods15 exNodes15
+    = .ok (["n1", "n2"], false) := by decide
+/-- "50%" of 3 targeted nodes is 2 (rounded up). -/
+example : selectNodes exT15 (exCanary15 ⟨"pct", 50⟩) 3 ["n3", "n1"] exPods15 exNodes15
+    = .ok (["n1", "n2"], false) := by decide
+/-- "50%" of 4 from scratch: the two least restarted fit nodes, in that order. -/
+example : selectNodes exT15 (exCanary15 ⟨"pct", 50⟩) 4 [] exPods15 exNodes15
+    = .ok (["n2", "n4"], false) := by decide
+/-- four requested, three fit nodes: all three are taken and the error flag is set. -/
+example : selectNodes exT15 (exCanary15 ⟨"int", 4⟩) 4 [] exPods15 exNodes15
+    = .ok (["n2", "n4", "n1"], true) := by decide
+/-- the canary node selector restricts the candidates. -/
+example : selectNodes exT15 (exCanary15 ⟨"int", 2⟩ (some { matchLabels := [⟨"pool", "c"⟩], exprs := [] })) 4 []
+    exPods15 [exNode15 "n1" [⟨"pool", "c"⟩], exNode15 "n2", exNode15 "n4" [⟨"pool", "c"⟩]]
+    = .ok (["n4", "n1"], false) := by decide
+/-- anti-affinity key `zone`, two classes, two requested: one node per zone (`n2` of zone `a` is passed
+over although it stands before `n4`). -/
+example : selectNodes exT15 (exCanary15 ⟨"int", 2⟩ none ["zone"]) 4 [] []
+    [exNode15 "n1" [⟨"zone", "a"⟩], exNode15 "n2" [⟨"zone", "a"⟩], exNode15 "n4" [⟨"zone", "b"⟩]]
+    = .ok (["n1", "n4"], false) := by decide
+/-- a request that is neither an integer nor a percentage is an error. -/
+example : selectNodes exT15 (exCanary15 ⟨"str", 2⟩) 4 [] exPods15 exNodes15 = .err "replicas" := by decide
+
+/-- the specification predicates on the first example. -/
+example : distinct ["n3", "n1"] ["n1", "n2"] = true ∧
+    newValid exT15 (exCanary15 ⟨"int", 2⟩) exNodes15 ["n3", "n1"] ["n1", "n2"] = true ∧
+    keep exT15 (exCanary15 ⟨"int", 2⟩) exNodes15 ["n3", "n1"] ["n1", "n2"] = true ∧
+    count (exCanary15 ⟨"int", 2⟩) 4 ["n3", "n1"] ["n1", "n2"] false = true ∧
+    allValid exT15 (exCanary15 ⟨"int", 2⟩) exNodes15 ["n1", "n2"] = true := by decide
+
+/-- **Finding F6a** (known, accepted): a previously selected name that is not listed — here a deleted
+node — is never re-examined and stays, so `allValid` fails. -/
+theorem C15_allValid_counterexample :
+    selectNodes exT15 (exCanary15 ⟨"int", 4⟩) 4 ["gone"] exPods15 exNodes15
+      = .ok (["gone", "n2", "n4", "n1"], false) ∧
+    allValid exT15 (exCanary15 ⟨"int", 4⟩) exNodes15 ["gone", "n2", "n4", "n1"] = false := by decide
+
+/-- `C15_all_valid_if_listed` needs `cur.Nodup`: of a name listed twice only one occurrence is erased. -/
+theorem C15_all_valid_needs_nodup :
+    selectNodes exT15 (exCanary15 ⟨"int", 1⟩) 4 ["a", "a"] [] [exNode15 "a" [] [exTaint15]]
+      = .ok (["a"], false) ∧
+    allValid exT15 (exCanary15 ⟨"int", 1⟩) [exNode15 "a" [] [exTaint15]] ["a"] = false := by decide
+
+/-- `C15_keep` needs distinct node names: with a fit and an unfit node both named `a`, the name `a` is
+"still valid" for the specification, yet the first loop drops it (and nothing is added, the request
+being met by `b`). -/
+theorem C15_keep_counterexample :
+    selectNodes exT15 (exCanary15 ⟨"int", 1⟩) 4 ["a", "b"] []
+        [exNode15 "a", exNode15 "a" [] [exTaint15], exNode15 "b"] = .ok (["b"], false) ∧
+    keep exT15 (exCanary15 ⟨"int", 1⟩) [exNode15 "a", exNode15 "a" [] [exTaint15], exNode15 "b"]
+      ["a", "b"] ["b"] = false := by decide
+
+/-- with anti-affinity keys the selection can come short, and the reconcile report an error, although a
+valid node is still free: the class of `n2` is full (`⌈2/2⌉ = 1`), and the only node of the other class is
+unfit (its class counter is incremented all the same). -/
+theorem C15_short_despite_valid_with_keys :
+    selectNodes exT15 (exCanary15 ⟨"int", 2⟩ none ["zone"]) 4 [] []
+      [exNode15 "n1" [⟨"zone", "a"⟩], exNode15 "n2" [⟨"zone", "a"⟩], exNode15 "n3" [⟨"zone", "b"⟩] [exTaint15]]
+      = .ok (["n1"], true) ∧
+    validNode exT15 (exCanary15 ⟨"int", 2⟩ none ["zone"])
+      [exNode15 "n1" [⟨"zone", "a"⟩], exNode15 "n2" [⟨"zone", "a"⟩], exNode15 "n3" [⟨"zone", "b"⟩] [exTaint15]]
+      "n2" = true := by decide
 
 end Eds
